@@ -129,6 +129,8 @@ func H_C18_Parse(v *verifrt.T) {
 		v.Assert(pr == renamed, "C18.O2 replayed rename")
 		v.Assert(ph == hash, "C18.O2 replayed hash")
 		v.Assert(psize == size, "C18.O2 replayed size")
+		// the record carries the time it was written (whole seconds)
+		v.Assert(t.Unix() == now.Unix(), "C18.O2 replayed time of the record")
 		return false
 	}, now.Add(-time.Hour), now.Add(time.Hour))
 	v.Assert(n == 1, "C18.O2 every record written is replayed once")
